@@ -521,6 +521,8 @@ class Gen:
                 continue
             if rx.first(sem) & set(avoid):
                 continue
+            if rx.expanded_size(tree) > self.p.get("rx_max_size", 24):
+                continue        # compile time only: nmfu minimises regex automata with a cubic-ish refinement
             if rx.has_empty_set(tree):
                 continue        # known finding K1 (late mismatch with an unsatisfiable class) belongs to C07
             return N("rx", tree=tree, binary=binary)
